@@ -47,7 +47,11 @@ def gen_xml_recipe(ch, kind):
             local = ch.pick(ATTRS)
             ans = ch.pick((None, None) + URIS)
             apfx = ch.pick(DOC_PREFIXES) if ans is not None else None
-            if ans is not None and apfx == prefix and ans != ns:
+            if ans is not None and kind == 'xml-api' and ch.p(0.2):
+                # an attribute key that is in a namespace without carrying a prefix (Beautiful Soup builds such keys
+                # when a URI is bound to a prefix and to the default namespace; html5lib does for `xmlns`)
+                apfx = ch.pick(('', None))
+            if ans is not None and apfx and apfx == prefix and ans != ns:
                 continue     # one prefix cannot mean two URIs on the same element
             key = (apfx, local)
             if key in used or (ans is not None and any(u[0] == apfx for u in used if u[0])):
